@@ -31,7 +31,7 @@ package topic
 //@ writers Tree.wildcardSome: NewTree
 //@ writers Tree.root: NewTree, (*Tree).Reset
 //
-//@ spec pred wf() = forall n *node {isnode[n]} :: isnode[n] ==> n != nil && n.children != nil && forall s string {n.children[s]} :: has(n.children, s) ==> n.children[s] != nil && isnode[n.children[s]]
+//@ spec pred wf() = forall n *node {isnode[n]} :: isnode[n] ==> n != nil && addr(n) > 0 && n.children != nil && forall s string {n.children[s]} :: has(n.children, s) ==> n.children[s] != nil && isnode[n.children[s]]
 //@ spec pred tree_ok(t *Tree) = t.root != nil && isnode[t.root] && wf()
 // A slice is a snapshot if it shares its array with no node's value list.
 //@ spec pred snapshot(r []interface{}) = arr(r) == 0 || forall n *node {n.values} :: isnode[n] ==> arr(n.values) != arr(r)
@@ -47,6 +47,7 @@ package topic
 // whatever it does, it leaves the trie's structure intact.
 //@ functype "func([]interface{}) bool" (values []interface{}) (cont bool)
 //@   requires [nonempty] len(values) > 0
+//@   requires [wf] wf()
 //@   ensures [wf] old(wf()) ==> wf()
 //@   ensures [config] forall tr *Tree {tr.root} :: tr.root == old(tr.root) && tr.separator == old(tr.separator) && tr.wildcardOne == old(tr.wildcardOne) && tr.wildcardSome == old(tr.wildcardSome)
 //@   ensures [children-kept] forall n *node {n.children} :: old(isnode[n]) ==> n.children == old(n.children)
@@ -249,6 +250,7 @@ package topic
 //@   modifies held
 //@ func (t *Tree) Match$1(values []interface{}) (cont bool)
 //@   requires [nonempty] len(values) > 0
+//@   requires [wf] wf()
 //@   preserves [own] snapshot(*list) && (arr(*list) == 0 || arr(*list) > addr(list))
 //@   ensures [wf] old(wf()) ==> wf()
 //@   ensures [config] forall tr *Tree {tr.root} :: tr.root == old(tr.root) && tr.separator == old(tr.separator) && tr.wildcardOne == old(tr.wildcardOne) && tr.wildcardSome == old(tr.wildcardSome)
@@ -266,6 +268,7 @@ package topic
 //@   modifies held
 //@ func (t *Tree) Search$1(values []interface{}) (cont bool)
 //@   requires [nonempty] len(values) > 0
+//@   requires [wf] wf()
 //@   preserves [own] snapshot(*list) && (arr(*list) == 0 || arr(*list) > addr(list))
 //@   ensures [wf] old(wf()) ==> wf()
 //@   ensures [config] forall tr *Tree {tr.root} :: tr.root == old(tr.root) && tr.separator == old(tr.separator) && tr.wildcardOne == old(tr.wildcardOne) && tr.wildcardSome == old(tr.wildcardSome)
@@ -283,6 +286,7 @@ package topic
 //@   modifies held, lastfirst
 //@ func (t *Tree) MatchFirst$1(values []interface{}) (cont bool)
 //@   requires [nonempty] len(values) > 0
+//@   requires [wf] wf()
 //@   ensures [wf] old(wf()) ==> wf()
 //@   ensures [config] forall tr *Tree {tr.root} :: tr.root == old(tr.root) && tr.separator == old(tr.separator) && tr.wildcardOne == old(tr.wildcardOne) && tr.wildcardSome == old(tr.wildcardSome)
 //@   ensures [children-kept] forall n *node {n.children} :: old(isnode[n]) ==> n.children == old(n.children)
@@ -299,6 +303,7 @@ package topic
 //@   modifies held, lastfirst
 //@ func (t *Tree) SearchFirst$1(values []interface{}) (cont bool)
 //@   requires [nonempty] len(values) > 0
+//@   requires [wf] wf()
 //@   ensures [wf] old(wf()) ==> wf()
 //@   ensures [config] forall tr *Tree {tr.root} :: tr.root == old(tr.root) && tr.separator == old(tr.separator) && tr.wildcardOne == old(tr.wildcardOne) && tr.wildcardSome == old(tr.wildcardSome)
 //@   ensures [children-kept] forall n *node {n.children} :: old(isnode[n]) ==> n.children == old(n.children)
